@@ -188,6 +188,22 @@ func init() {
 		for _, kw := range []string{"allOf", "anyOf", "oneOf"} {
 			malformedFiles["null-in-"+kw] = `{"type":"object","properties":{"p":{"` + kw + `":[{"type":"object"},null]}}}`
 		}
+		// `default` values that do not fit the property they sit on (keys that are not declared properties, other-cased
+		// keys, a value of another JSON type, on inline objects / referenced definitions / maps / arrays / enums): whatever
+		// the tool makes of them, it ends cleanly
+		objT := `{"type":"object","properties":{"cpu":{"type":"integer"},"memory_mb":{"type":"integer"}},"additionalProperties":true}`
+		for dn, dv := range map[string]string{
+			"undeclared-key": `{"cpu":1,"burst":true}`, "other-case-key": `{"Cpu":2}`, "only-undeclared": `{"zzz":{"a":[1]}}`, "empty-object": `{}`,
+			"array-for-object": `[1,2]`, "string-for-object": `"x"`, "number-for-object": `1.5`, "nested-undeclared": `{"cpu":{"deep":1}}`, "null": `null`,
+		} {
+			inline := strings.Replace(objT, `"additionalProperties":true`, `"additionalProperties":true,"default":`+dv, 1)
+			malformedFiles["default-"+dn+"-on-inline-object"] = `{"type":"object","properties":{"limits":` + inline + `}}`
+			malformedFiles["default-"+dn+"-on-referenced-object"] = `{"type":"object","$defs":{"L":` + objT + `},"properties":{"limits":{"$ref":"#/$defs/L","default":` + dv + `}}}`
+			malformedFiles["default-"+dn+"-on-closed-object"] = `{"type":"object","properties":{"limits":{"type":"object","properties":{"cpu":{"type":"integer"}},"default":` + dv + `}}}`
+			malformedFiles["default-"+dn+"-on-map"] = `{"type":"object","properties":{"limits":{"type":"object","additionalProperties":{"type":"integer"},"default":` + dv + `}}}`
+			malformedFiles["default-"+dn+"-on-array-of-objects"] = `{"type":"object","properties":{"limits":{"type":"array","items":{"type":"object","properties":{"cpu":{"type":"integer"}}},"default":[` + dv + `]}}}`
+			malformedFiles["default-"+dn+"-on-string-enum"] = `{"type":"object","properties":{"limits":{"type":"string","enum":["a","b"],"default":` + dv + `}}}`
+		}
 		for _, name := range core.SortedKeys(malformedFiles) {
 			cases = append(cases, cliCase{"malformed-file", name, map[string]string{"s.json": malformedFiles[name]}, []string{"-p", "x", "-o", "gen.go", "s.json"}, false, ""},
 				cliCase{"malformed-file", name, map[string]string{"s.json": malformedFiles[name]}, []string{"-p", "x", "s.json"}, false, ""})
